@@ -146,9 +146,13 @@ type c10CLIProg struct {
 	name  string
 	src   string
 	plain func(in [][]byte) uint64 // nil: Circuit.Compute only
+	// asCircuitFile: the parties get the compiled circuit as a .mpclc file
+	// (Circuit.Marshal here, circuit.Parse + AssignLevels in loadCircuit)
+	asCircuitFile bool
+	leaderFlags   []string // e.g. -v
 }
 
-var c10CLIFold = c10CLIProg{"fold", `package main
+var c10CLIFold = c10CLIProg{name: "fold", src: `package main
 
 func main(a, b []byte) uint32 {
 	var sum uint32
@@ -160,7 +164,7 @@ func main(a, b []byte) uint32 {
 	}
 	return sum ^ uint32(a[0]&b[0])
 }
-`, func(in [][]byte) uint64 {
+`, plain: func(in [][]byte) uint64 {
 	var sum uint32
 	for _, v := range in {
 		for i, x := range v {
@@ -170,7 +174,7 @@ func main(a, b []byte) uint32 {
 	return uint64(sum ^ uint32(in[0][0]&in[1][0]))
 }}
 
-var c10CLISum = c10CLIProg{"bytesum", `package main
+var c10CLISum = c10CLIProg{name: "bytesum", src: `package main
 
 func main(a, b []byte) uint32 {
 	var sum uint32
@@ -182,7 +186,7 @@ func main(a, b []byte) uint32 {
 	}
 	return sum
 }
-`, func(in [][]byte) uint64 {
+`, plain: func(in [][]byte) uint64 {
 	var sum uint32
 	for _, x := range in[0] {
 		sum += uint32(x)
@@ -193,19 +197,19 @@ func main(a, b []byte) uint32 {
 	return uint64(sum)
 }}
 
-var c10CLIFixed = c10CLIProg{"fixed-uint32", `package main
+var c10CLIFixed = c10CLIProg{name: "fixed-uint32", src: `package main
 
 func main(a, b uint32) uint32 {
 	return a*b + a
 }
-`, nil}
+`}
 
-var c10CLIThree = c10CLIProg{"three-uint16", `package main
+var c10CLIThree = c10CLIProg{name: "three-uint16", src: `package main
 
 func main(a, b, c uint16) uint16 {
 	return a + b*c
 }
-`, nil}
+`}
 
 // reference: the program compiled here for the round's input sizes,
 // evaluated by Circuit.Compute on the parsed -i values
@@ -264,6 +268,26 @@ func c10CLIFamily(c *Ctx, bin, dir, family string, prog c10CLIProg, leaderArg st
 	raw func(arg string) []byte) {
 	file := filepath.Join(dir, "c10-"+prog.name+".mpcl")
 	os.WriteFile(file, []byte(prog.src), 0o644)
+	if prog.asCircuitFile {
+		params := utils.NewParams()
+		params.Target = utils.TargetGMW
+		params.Warn.DisableAll()
+		var circ *circuit.Circuit
+		var cerr error
+		msg := c10Try(func() { circ, _, cerr = compiler.New(params).Compile(prog.src, nil) })
+		params.Close()
+		if msg != "" || cerr != nil {
+			c.Note("cli %s: compile: %v %s", family, cerr, msg)
+			return
+		}
+		var buf bytes.Buffer
+		if err := circ.Marshal(&buf); err != nil {
+			c.Note("cli %s: Marshal: %v", family, err)
+			return
+		}
+		file = filepath.Join(dir, "c10-"+prog.name+".mpclc")
+		os.WriteFile(file, buf.Bytes(), 0o644)
+	}
 	n := 1 + len(rounds[0])
 	addrs := make([]string, n)
 	for i := range addrs {
@@ -283,6 +307,7 @@ func c10CLIFamily(c *Ctx, bin, dir, family string, prog c10CLIProg, leaderArg st
 	if len(rounds) > 1 {
 		largs = append(largs, "-loop")
 	}
+	largs = append(largs, prog.leaderFlags...)
 	largs = append(largs, "-i", leaderArg, file)
 	leader, err := c10Start(dir, 25*len(rounds)+10, bin, pw, largs...)
 	pw.Close()
@@ -489,8 +514,16 @@ func c10CLI(c *Ctx) error {
 	// (2) -loop leader, fixed-size arguments, two rounds
 	c10CLIFamily(c, bin, dir, "gmw-loop-fixed", c10CLIFixed, fmt.Sprint(1+r.Intn(100000)),
 		[][]string{{fmt.Sprint(r.Intn(100000))}, {fmt.Sprint(r.Intn(1 << 30))}}, nil)
-	// (3) three parties, one round
-	c10CLIFamily(c, bin, dir, "gmw-3party", c10CLIThree, fmt.Sprint(1+r.Intn(60000)),
+	// (3) three parties, one round, verbose leader (-v)
+	three := c10CLIThree
+	three.leaderFlags = []string{"-v"}
+	c10CLIFamily(c, bin, dir, "gmw-3party", three, fmt.Sprint(1+r.Intn(60000)),
 		[][]string{{fmt.Sprint(r.Intn(60000)), fmt.Sprint(r.Intn(60000))}}, nil)
+	// (4) the compiled circuit as a .mpclc file, one round
+	cf := c10CLIFixed
+	cf.name = "fixed-circuit-file"
+	cf.asCircuitFile = true
+	c10CLIFamily(c, bin, dir, "gmw-circuit-file", cf, fmt.Sprint(1+r.Intn(100000)),
+		[][]string{{fmt.Sprint(r.Intn(100000))}}, nil)
 	return nil
 }
